@@ -16,15 +16,15 @@ FUNCTIONS = [("pandapower.build_branch", "_calc_line_parameter"), ("pandapower.b
              ("pandapower.build_branch", "_calc_impedance_parameter"), ("pandapower.build_branch", "_calc_impedance_parameters_from_dataframe"), ("pandapower.build_branch", "_calc_switch_parameter"),
              ("pandapower.pypower.makeYbus", "branch_vectors"), ("pandapower.results_branch", "_get_line_results"),
              ("pandapower.results_branch", "_get_trafo_results"), ("pandapower.pypower.makeBdc", "makeBdc"),
-             ("pandapower.pypower.makeBdc", "calc_b_from_branch")]
-STUBS = ["sqrt of Pythagorean differences is made exact by rationalising input parametrisations (vkr = vk(1-m^2)/(1+m^2), pfe likewise): w.l.o.g.",
+             ("pandapower.pypower.makeBdc", "calc_b_from_branch"), ("pandapower.pypower.makeBdc", "phase_shift_injection"), ("pandapower.pf.run_dc_pf", "_run_dc_pf"), ("pandapower.results_branch", "_get_branch_flows")]
+STUBS = ["DC instance: the linear solve dcpf -> a symbolic angle vector (its contract is only needed for the non-slack balance, which is not claimed)", "sqrt of Pythagorean differences is made exact by rationalising input parametrisations (vkr = vk(1-m^2)/(1+m^2), pfe likewise): w.l.o.g.",
          "exp(j shift) -> rational circle parametrisation per angle atom; arctan as inverse on the abstract angle"]
 ASSUMPTIONS = ["all element parameters positive within physical ranges; parallel, tap_pos symbolic reals (values between integers included)",
                "reference model: per-unit pi / T two-port written in the harness from doc/elements/{line,trafo,impedance}.rst on the bases "
                "Z_N = vn_bus_lv^2 / net.sn_mva; the transformer impedance refers to the (tap adjusted) transformer LV voltage as the builder documents",
                "real arithmetic"]
 OUTSIDE = ["TDPF temperature dependence", "FACTS", "deprecated spline-characteristic path", "3W transformers: thorough tier", "tap2_* second tap changer"]
-BOUNDS = {"quick": "one element per instance: line; trafo pi x {no tap, Ratio hv, Ratio lv, Ideal} + trafo t x {Ratio hv}; impedance; DC model of line+trafo",
+BOUNDS = {"quick": "result side: i_ka / loading_percent of line and trafo (trafo_loading current/power); one element per instance: line; trafo pi x {no tap, Ratio hv, Ratio lv, Ideal} + trafo t x {Ratio hv}; impedance; DC model of line+trafo",
           "thorough": "all of trafo_model {t,pi} x tap side x changer {None, Ratio, Symmetrical, Ideal} + 3W"}
 _cache = {}
 
@@ -282,8 +282,155 @@ def make_switch():
     return fn
 
 
+# ------------------------------------------------------------------------------------------------- result side
+def make_results(trafo_loading):
+    """reported branch currents and loadings from the terminal powers and voltages (the documented formulas)"""
+    def fn(ctx):
+        from . import c12
+        rb = ctx.load("pandapower.results_branch")
+        from pandapower.pypower.idx_brch import PF, QF, PT, QT, F_BUS, T_BUS
+        from pandapower.pypower.idx_bus import VM, BASE_KV
+        net = copy.deepcopy(c12._batch_net(trafo_loading))
+        fl, tl = net._pd2ppc_lookups["branch"]["line"]
+        ft, tt = net._pd2ppc_lookups["branch"]["trafo"]
+        rows = {"line": fl, "trafo": ft}
+        ppc = {"bus": ctx.obj(net._ppc["bus"]), "branch": ctx.obj(net._ppc["branch"].real)}
+        S, W = {}, {}
+        for el, k in rows.items():
+            for side, (pc, qc) in (("f", (PF, QF)), ("t", (PT, QT))):
+                sabs, w = ctx.var(f"s_{el}_{side}", 0., 60.), ctx.var(f"w_{el}_{side}", -0.9, 0.9)     # P + jQ = s (1-w^2 + 2jw)/(1+w^2)
+                S[(el, side)] = sabs
+                ppc["branch"][k, pc] = sabs * (1 - w * w) / (1 + w * w)
+                ppc["branch"][k, qc] = sabs * 2 * w / (1 + w * w)
+        vm, vn = {}, {}
+        for el, k in rows.items():
+            for side, col in (("f", F_BUS), ("t", T_BUS)):
+                b = int(ppc["branch"][k, col])
+                if b not in vm:
+                    vm[b] = ctx.var(f"vm{b}", 0.8, 1.2)
+                    ppc["bus"][b, VM] = vm[b]
+                    vn[b] = float(ppc["bus"][b, BASE_KV])
+        line = {c: ctx.var(f"line_{c}", lo, hi) for c, (lo, hi) in {"max_i_ka": (0.05, 2.), "df": (0.1, 1.), "parallel": (1., 3.)}.items()}
+        for c, v in line.items():
+            col = list(net.line[c].values.astype(float))
+            col[0] = v
+            setcol(ctx, net.line, c, col)
+        tr = {c: ctx.var(f"trafo_{c}", lo, hi) for c, (lo, hi) in {"sn_mva": (1., 100.), "vn_hv_kv": (50., 400.), "vn_lv_kv": (5., 40.), "df": (0.1, 1.), "parallel": (1., 3.)}.items()}
+        for c, v in tr.items():
+            setcol(ctx, net.trafo, c, [v])
+        for t in ("res_line", "res_trafo", "res_trafo3w"):
+            net[t] = net[t].astype(object if ctx.symbolic else float)
+        i_ft, s_ft = rb._get_branch_flows(ppc)
+        rb._get_line_results(net, ppc, i_ft)
+        rb._get_trafo_results(net, ppc, s_ft, i_ft)
+        s3 = np.sqrt(3)
+        k = rows["line"]
+        fb, tb = int(ppc["branch"][k, F_BUS]), int(ppc["branch"][k, T_BUS])
+        i_f = S[("line", "f")] / (vm[fb] * vn[fb] * s3)
+        i_t = S[("line", "t")] / (vm[tb] * vn[tb] * s3)
+        rl = net.res_line
+        ctx.eq("line_i_from_is_S_over_sqrt3_V", rl.i_from_ka.values[0], i_f)
+        ctx.eq("line_i_to_is_S_over_sqrt3_V", rl.i_to_ka.values[0], i_t)
+        ctx.true("line_i_ka_is_the_larger_terminal_current", ((rl.i_ka.values[0] == i_f) | (rl.i_ka.values[0] == i_t)) & (rl.i_ka.values[0] >= i_f) & (rl.i_ka.values[0] >= i_t))
+        ctx.eq("line_loading_is_i_over_rated_current", rl.loading_percent.values[0] * (line["max_i_ka"] * line["df"] * line["parallel"]), rl.i_ka.values[0] * 100)
+        k = rows["trafo"]
+        hb, lb = int(ppc["branch"][k, F_BUS]), int(ppc["branch"][k, T_BUS])
+        i_h = S[("trafo", "f")] / (vm[hb] * vn[hb] * s3)
+        i_l = S[("trafo", "t")] / (vm[lb] * vn[lb] * s3)
+        rt = net.res_trafo
+        ctx.eq("trafo_i_hv_is_S_over_sqrt3_V", rt.i_hv_ka.values[0], i_h)
+        ctx.eq("trafo_i_lv_is_S_over_sqrt3_V", rt.i_lv_ka.values[0], i_l)
+        ld = rt.loading_percent.values[0] * tr["parallel"] * tr["df"]
+        if trafo_loading == "current":
+            a, b = i_h * tr["vn_hv_kv"] * s3 / tr["sn_mva"] * 100, i_l * tr["vn_lv_kv"] * s3 / tr["sn_mva"] * 100
+        else:
+            a, b = S[("trafo", "f")] / tr["sn_mva"] * 100, S[("trafo", "t")] / tr["sn_mva"] * 100
+        ctx.true(f"trafo_loading_{trafo_loading}_is_the_larger_side_over_rating", ((ld == a) | (ld == b)) & (ld >= a) & (ld >= b))
+    return fn
+
+
+# ------------------------------------------------------------------------------------------------- DC model
+def make_dc():
+    """linear DC model: real makeBdc and the result lines of the real _run_dc_pf (linear solve replaced by its contract)"""
+    def fn(ctx):
+        dc = ctx.load("pandapower.pf.run_dc_pf")
+        mB = ctx.load("pandapower.pypower.makeBdc")
+        from . import c01
+        from pandapower.pypower.idx_bus import BUS_I, VA, VM, PD, GS, BUS_TYPE, bus_cols
+        from pandapower.pypower.idx_gen import GEN_BUS, GEN_STATUS, PG
+        from pandapower.pypower.idx_brch import F_BUS, T_BUS, BR_X, TAP, SHIFT, BR_STATUS, PF, PT, QF, QT, branch_cols
+        ft = [(0, 1), (1, 2), (0, 2)]
+        nb, nl = 3, 3
+        bus, gen = c01._bus_gen_arrays(ctx, nb, 1)
+        branch = ctx.obj(np.zeros((nl, branch_cols)))
+        x, tap, shift = [], [], []
+        for k, (f, t) in enumerate(ft):
+            branch[k, F_BUS], branch[k, T_BUS], branch[k, BR_STATUS] = f, t, 1
+            x.append(ctx.var(f"x{k}", 0.01, 1.))
+            tap.append(ctx.var(f"tap{k}", 0.8, 1.2) if k == 0 else 1.0)
+            shift.append(ctx.var(f"shift{k}", -30., 30.) if k == 0 else 0.0)
+            branch[k, BR_X], branch[k, TAP], branch[k, SHIFT] = x[k], (tap[k] if k == 0 else 0.0), shift[k]
+        pd_ = []
+        for b in range(nb):
+            bus[b, BUS_I], bus[b, VM] = b, 1.0
+            bus[b, BUS_TYPE] = 3 if b == 0 else 1
+            pd_.append(ctx.var(f"pd{b}", -5., 5.))
+            bus[b, PD] = pd_[b]
+            bus[b, GS] = ctx.var(f"gs{b}", 0., 1.)
+        gen[0, GEN_BUS], gen[0, GEN_STATUS], gen[0, PG] = 0, 1, 0.0
+        base = 10.0
+        Bbus, Bf, Pbusinj, Pfinj, Cft = mB.makeBdc(bus, branch)
+        BF = Bf.toarray() if hasattr(Bf, "toarray") else np.asarray(Bf)
+        BB = Bbus.toarray() if hasattr(Bbus, "toarray") else np.asarray(Bbus)
+        for k, (f, t) in enumerate(ft):
+            bk = 1 / (x[k] * tap[k])
+            ctx.eq(f"Bf[{k}]_from_entry_is_1_over_x_tap", BF[k, f], bk)
+            ctx.eq(f"Bf[{k}]_to_entry_is_minus_1_over_x_tap", BF[k, t], -bk)
+            ctx.eq(f"phase_shift_injection[{k}]", Pfinj[k], -bk * shift[k] * np.pi / 180.)
+        for i in range(nb):
+            for j in range(nb):
+                want = 0.0
+                for k, (f, t) in enumerate(ft):
+                    bk = 1 / (x[k] * tap[k])
+                    if i == f and j == f or i == t and j == t:
+                        want = want + bk
+                    if i == f and j == t or i == t and j == f:
+                        want = want - bk
+                ctx.eq(f"Bbus[{i},{j}]_is_the_dc_nodal_matrix", BB[i, j], want)
+        # result lines of _run_dc_pf with a symbolic solution Va (degrees -> radians inside)
+        th = [0.0] + [ctx.var(f"theta{b}", -0.5, 0.5) for b in (1, 2)]       # radians
+        ppci = {"bus": bus, "gen": gen, "branch": branch, "baseMVA": base, "internal": {},
+                "svc": np.zeros((0, 20)), "tcsc": np.zeros((0, 30)), "ssc": np.zeros((0, 20)), "vsc": np.zeros((0, 30))}
+        from .common import patched
+
+        def fake_dcpf(B, Pbus, Va0, ref, pv, pq):
+            return ctx.array(th)
+
+        def fake_vars(ppci_, *a):
+            return (base, bus, gen, branch, None, None, None, None, np.array([0]), np.array([], dtype=int), np.array([1, 2]), None, None, np.array([0]))
+        with patched(dc, dcpf=fake_dcpf, _get_pf_variables_from_ppci=fake_vars, _store_results_from_pf_in_ppci=lambda ppci_, bus_, gen_, branch_, *a: ppci_):
+            dc._run_dc_pf(ppci, False)
+        for k, (f, t) in enumerate(ft):
+            want = (th[f] - th[t] - shift[k] * np.pi / 180.) / (x[k] * tap[k]) * base
+            ctx.eq(f"dc_flow[{k}]_is_angle_difference_over_reactance", branch[k, PF], want)
+            ctx.eq(f"dc_flow[{k}]_p_to_is_minus_p_from", branch[k, PT], -branch[k, PF])
+            ctx.eq(f"dc_flow[{k}]_no_reactive_power", branch[k, QF] + branch[k, QT], 0.0)
+        # slack: generation = flows leaving the slack bus + demand + conductance part
+        out0 = 0.0
+        for k, (f, t) in enumerate(ft):
+            if f == 0:
+                out0 = out0 + branch[k, PF]
+            if t == 0:
+                out0 = out0 + branch[k, PT]
+        ctx.eq("slack_generation_balances_its_bus", gen[0, PG], out0 + pd_[0] + bus[0, GS])
+    return fn
+
+
 def instances(tier):
     out = [Inst("line", make_line(), nvars=20, samples=3, meta=dict(element="line")),
+           Inst("dc_model", make_dc(), nvars=30, samples=2, meta=dict(part="DC power flow model")),
+           Inst("results_current", make_results("current"), nvars=30, samples=2, raises=(UserWarning,), meta=dict(part="result side", trafo_loading="current")),
+           Inst("results_power", make_results("power"), nvars=30, samples=2, raises=(UserWarning,), meta=dict(part="result side", trafo_loading="power")),
            Inst("impedance_switch", make_switch(), nvars=16, samples=3, meta=dict(element="bus-bus switch with z_ohm > 0")),
            Inst("impedance", make_impedance(), nvars=20, samples=3, meta=dict(element="impedance"))]
     combos = [("None", "hv", "pi"), ("Ratio", "hv", "pi"), ("Ratio", "lv", "pi"), ("Ideal", "hv", "pi"), ("Ideal", "lv", "pi"),
